@@ -28,15 +28,24 @@ RULE = ("(histories: several records through ONE long-lived serialize=True handl
         "direct oracle (single line, json.loads, field-by-field against message.record, twin text) and compared "
         "char-for-char with the Lean model; plus string-level streams encodeStr/decodeStr/dumps/loads against "
         "CPython's json.  non-trivial = message or extra contains a character needing an escape, a non-ASCII "
-        "character, an opaque object, a nested container or an exception; distinct by (message, wire form of the record)")
+        "character, an opaque object, a nested container or an exception; distinct by (message, wire form of the record).  "
+        "Round 5: nested dictionary keys are str / int / float / bool / None / int & float subclasses (json coerces them) and, at "
+        "1 %, tuple / bytes / frozenset / object keys (known finding F33); containers up to 14 levels deep; exception classes with "
+        "adversarial __name__ and with a raising __str__; histories also RENAME the current thread / process between records and "
+        "reuse thread / process ids and file paths with other names; catch histories: 3-6 calls on one serialize=True handler "
+        "created with catch=True or catch=False, ~40 % of the records unserialisable (never lost silently: sink messages, the "
+        "exception reaching the caller and the stderr reports are counted); sink cases: 6-10 calls into a serialize=True FILE sink "
+        "(half enqueue=True), the file read back line by line")
 TRUSTED = [
     "Py/JsonStr.lean + Json.dumps/toJson are a model of CPython's json encoder (modelled, not verified): tied by the "
     "streams esc/dec/dumps/loads against json.dumps/json.loads on every run",
-    "harness classification of Python values by type (None/bool/int/float/str/list|tuple/dict/other=opaque) mirrors "
+    "harness classification of Python values by type (None/bool/int/float/str/list|tuple/dict/other=opaque) and of "
+    "dictionary keys (str/float/True|False|None/int/other, in the order of encoder_listencode_dict's tests) mirrors "
     "json.encoder's dispatch; float tokens are float.__repr__ as printed by Python",
     "str(obj) of opaque objects, the formatted text and the record's field values are inputs of the model",
 ]
-ASSUMPTIONS = ["no lone surrogates in any text", "extra values acyclic, dict keys are str",
+ASSUMPTIONS = ["no lone surrogates in any text", "extra values acyclic; top-level extra keys are str; nested dictionary keys are "
+               "str/int/float/bool/None (any other key type: known finding F33, reported with its key)",
                "ints below CPython's int->str digit limit (sys.get_int_max_str_digits(), 4300 by default)",
                "float repr is an opaque token"]
 
@@ -87,9 +96,7 @@ def wire(v, table, out):
     elif isinstance(v, dict):
         out.append("m%d" % len(v))
         for k, x in v.items():
-            if not isinstance(k, str) or has_surrogate(k):
-                raise Outside("key")
-            out.append("k" + enc(k))
+            out.append(wire_key(k, table))
             wire(x, table, out)
     else:
         out.append("o%d" % len(table))
@@ -102,6 +109,68 @@ def wire(v, table, out):
             raise
         except Exception as e:  # noqa
             table.append("!" + canon_err(e))
+
+
+def key_class(k):
+    """how `encoder_listencode_dict` classifies a dictionary key (order of its tests): 's' str, 'd' float,
+    'T'/'F'/'n' the three constants, 'i' int, 'o' anything else (no rule: TypeError unless skipkeys)"""
+    if isinstance(k, str):
+        return "s"
+    if isinstance(k, float):
+        return "d"
+    if k is True:
+        return "T"
+    if k is False:
+        return "F"
+    if k is None:
+        return "n"
+    if isinstance(k, int):
+        return "i"
+    return "o"
+
+
+def key_text(k):
+    """the JSON key json.dumps writes for a key that has a rule"""
+    c = key_class(k)
+    return {"s": lambda: str.__str__(k), "d": lambda: float_tok(k), "T": lambda: "true", "F": lambda: "false",
+            "n": lambda: "null", "i": lambda: int.__repr__(k)}[c]()
+
+
+def wire_key(k, table):
+    c = key_class(k)
+    if c == "s":
+        if has_surrogate(k):
+            raise Outside("surrogate")
+        return "k" + enc(str.__str__(k))
+    if c == "d":
+        return "Kd" + enc(float_tok(k))
+    if c == "i":
+        return "Ki" + int.__repr__(k)
+    if c in "TFn":
+        return "K" + c
+    return "Ko%d" % len(type(k).__name__)
+
+
+def has_other_key(v):
+    """a dictionary key json has no rule for, anywhere in v"""
+    if isinstance(v, dict):
+        return any(key_class(k) == "o" or has_other_key(x) for k, x in v.items())
+    if isinstance(v, (list, tuple)):
+        return any(has_other_key(x) for x in v)
+    return False
+
+
+def sort_unmodelled(v):
+    """dicts whose `sorted(items)` the model does not carry: two or more number keys (numeric order of float
+    tokens) or two or more keys without a rule (their mutual comparability is unknown)"""
+    if isinstance(v, dict):
+        cl = [key_class(k) for k in v]
+        if len(cl) >= 2 and (all(c in "dTFi" for c in cl) or sum(1 for c in cl if c == "o") >= 2):
+            return True
+        return any(sort_unmodelled(x) for x in v.values())
+    if isinstance(v, (list, tuple)):
+        return any(sort_unmodelled(x) for x in v)
+    return False
 
 
 def canon_err(e):
@@ -155,10 +224,11 @@ def wire_record(record):
     return table, out
 
 
-def value_line(v, ea=False, default=True):
+def value_line(v, ea=False, default=True, sort=False, skip=False, nan=True):
     table, out = [], []
     wire(v, table, out)
-    return "dumps %d %d %d %s" % (int(ea), int(default), len(table), " ".join(table + out))
+    return "dumps %d %d %d %d %d %d %s" % (int(ea), int(default), int(sort), int(skip), int(nan), len(table),
+                                           " ".join(table + out))
 
 
 # ----------------------------------------------------------------------------- independent expectations
@@ -176,8 +246,38 @@ def expect_json(v):
     if isinstance(v, (list, tuple)):
         return [expect_json(x) for x in v]
     if isinstance(v, dict):
-        return {k: expect_json(x) for k, x in v.items()}
+        d = {}
+        for k, x in v.items():          # keys with a rule are coerced (int -> decimal, float -> repr, True/False/None ->
+            d[key_text(k) if key_class(k) != "o" else str(k)] = expect_json(x)   # true/false/null); colliding texts: the later item wins, as json.loads does
+        return d
     return str(v)
+
+
+def dropped_member(parsed, orig, path="extra"):
+    """for values with dictionary keys json has no rule for: whatever text such a key is rendered with, every item of
+    every dictionary must still be there (a member silently dropped is data lost).  Returns a description or None."""
+    if isinstance(orig, dict):
+        if not isinstance(parsed, dict):
+            return "%s is no longer an object" % path
+        ruled = {key_text(k) for k in orig if key_class(k) != "o"}
+        n_other = sum(1 for k in orig if key_class(k) == "o")
+        if len(parsed) < len(ruled) + (1 if n_other else 0):
+            return "%s has %d members, the record's own dictionary has %d items (%d with a key that is not str/int/float/bool/None): dropped" % (
+                path, len(parsed), len(orig), n_other)
+        for k, x in orig.items():
+            if key_class(k) != "o" and key_text(k) in parsed and sum(1 for k2 in orig if key_class(k2) != "o" and key_text(k2) == key_text(k)) == 1:
+                d = dropped_member(parsed[key_text(k)], x, path + "[%r]" % (k,))
+                if d:
+                    return d
+        return None
+    if isinstance(orig, (list, tuple)):
+        if not isinstance(parsed, list) or len(parsed) != len(orig):
+            return "%s: array length differs" % path
+        for i, (a, b) in enumerate(zip(parsed, orig)):
+            d = dropped_member(a, b, path + "[%d]" % i)
+            if d:
+                return d
+    return None
 
 
 def jeq(a, b):
@@ -311,6 +411,8 @@ def gen_leaf(rng, stats, allow_bad=True):
 
 def gen_value(rng, stats, depth=0):
     k = rng.below(10)
+    if depth == 0 and rng.chance(3):
+        return gen_deep(rng, stats)
     if depth >= 3 or k < 6:
         return gen_leaf(rng, stats)
     n = rng.choice([0, 1, 2, 3, 5])
@@ -319,7 +421,48 @@ def gen_value(rng, stats, depth=0):
     if k == 7:
         stats("node:tuple"); return tuple(gen_value(rng, stats, depth + 1) for _ in range(n))
     stats("node:dict")
-    return {gen_key(rng): gen_value(rng, stats, depth + 1) for _ in range(n)}
+    return {gen_dict_key(rng, stats): gen_value(rng, stats, depth + 1) for _ in range(n)}
+
+
+def gen_deep(rng, stats):
+    """a chain of containers 5–14 levels deep (lists, tuples, dicts with str or number keys), a leaf at the bottom"""
+    stats("node:deep")
+    v = gen_leaf(rng, stats)
+    for _ in range(rng.range(5, 14)):
+        k = rng.below(4)
+        if k == 0:
+            v = [v]
+        elif k == 1:
+            v = (gen_leaf(rng, stats, allow_bad=False), v)
+        elif k == 2:
+            v = {gen_key(rng): v}
+        else:
+            v = {gen_dict_key(rng, stats, other=False): v, "z": None}
+    return v
+
+
+class KeyObj:
+    def __repr__(self):
+        return "KeyObj()"
+
+
+NUM_KEYS = [0, 1, -1, 7, 10, 9, 2**64, -10**30, 1.5, -0.0, 1e22, 1e-7, math.nan, math.inf, -math.inf, True, False, None,
+            IntE.A, FloatSub(2.5)]
+OTHER_KEYS = [(1, 2), (), ("a", None), b"k", b"", frozenset([1]), KeyObj(), Colour.RED, pydt.date(2020, 1, 2), 1j, Obj("k")]
+
+
+def gen_dict_key(rng, stats, other=True):
+    """a key of a NESTED dictionary: mostly str; int / float / bool / None / int & float subclasses (json coerces
+    them); rarely a key json has no rule for (tuple, bytes, frozenset, object …: outside the property's quantifier,
+    kept for the model-vs-CPython stream)"""
+    k = rng.below(100)
+    if k < 78:
+        return gen_key(rng)
+    if k < 99 or not other:
+        stats("key:scalar-non-str")
+        return rng.choice(NUM_KEYS) if rng.chance(80) else rng.choice([rng.range(-10**6, 10**6), rng.choice(INTS), rng.choice(FLOATS)])
+    stats("key:no-rule")
+    return rng.choice(OTHER_KEYS)
 
 
 def gen_key(rng):
@@ -404,8 +547,24 @@ def gen_case(seed):
         c["patch"] = [("file", gen_text(rng, 5), "/" + gen_text(rng, 6)),
                       ("process", rng.choice(INTS + [None]), gen_text(rng, 4)),
                       ("thread", rng.choice(INTS + [None]), gen_text(rng, 4))][k]
-    ek = rng.below(10)
+    elif pk == 8:
+        # a nested dictionary whose keys are not all str: int / float / bool / None keys are coerced by json
+        stats("patch:extra-nested-non-str-keys")
+        c["patch"] = ("extra", gen_key(rng), {gen_dict_key(rng, stats, other=False): gen_value(rng, stats, 1)
+                                              for _ in range(rng.choice([1, 2, 3]))})
+    ek = rng.below(12)
     c["exc"] = None
+    if ek == 10:
+        # an exception class whose __name__ needs escaping (type name is written under record.exception.type)
+        stats("exc:weird-type-name")
+        c["exc"] = ("raised", "Weird:" + (gen_text(rng, 5).replace("\x00", "") or "W"), gen_text(rng, 8))
+    elif ek == 11 and rng.chance(50):
+        # an exception whose str() raises: nothing can be rendered under record.exception.value
+        stats("exc:str-raises")
+        c["exc"] = ("raised", "BadStrExc", rng.choice("VTKRZ"))
+    elif ek == 11:
+        stats("exc:unraised-weird")
+        c["exc"] = ("unraised", "Weird:" + (gen_text(rng, 3).replace("\x00", "") or "W"), gen_text(rng, 4))
     if ek == 0:
         c["exc"] = ("raised", rng.choice(["ValueError", "KeyError", "ZeroDivisionError", "Custom"]), gen_text(rng, 8))
     elif ek == 1:
@@ -421,13 +580,30 @@ class CustomError(Exception):
     pass
 
 
+class BadStrExc(Exception):
+    def __str__(self):
+        raise {"V": ValueError, "T": TypeError, "K": KeyError, "R": RuntimeError, "Z": ZeroDivisionError}[self.args[0]]("no str")
+
+
+_WEIRD = {}
+
+
+def weird_class(name):
+    if name not in _WEIRD:
+        _WEIRD[name] = type(name, (Exception,), {})
+    return _WEIRD[name]
+
+
 def make_exc(spec):
     if spec is None:
         return None
     if spec[0] == "none3":
         return (None, None, None)
-    cls = {"ValueError": ValueError, "KeyError": KeyError, "ZeroDivisionError": ZeroDivisionError, "Custom": CustomError,
-           "RuntimeError": RuntimeError}[spec[1]]
+    if spec[1].startswith("Weird:"):
+        cls = weird_class(spec[1][6:])
+    else:
+        cls = {"ValueError": ValueError, "KeyError": KeyError, "ZeroDivisionError": ZeroDivisionError, "Custom": CustomError,
+               "RuntimeError": RuntimeError, "BadStrExc": BadStrExc}[spec[1]]
     if spec[0] == "unraised":
         return cls(spec[2])
     try:
@@ -557,6 +733,10 @@ def gen_history(seed):
     variant = rng.choice(HANDLER_VARIANTS)
     fmt = rng.choice([f for f in FORMATS if f[0]] + [("{level.icon}|{level.no}|{message}", "{level.icon}|{level.no}|{message}")] * 3)
     steps = []
+    # identities that RECUR within the history with other attributes: a per-handler cache of any serialised
+    # sub-object keyed by thread id / process id / file path / level name would go stale here
+    ids = [rng.choice([1, 2, 77, 2**40]), rng.choice([3, 140000000000000])]
+    paths = ["/p/" + gen_text(rng, 3).replace("\x00", ""), "/q.py"]
     for _ in range(rng.range(5, 16)):
         k = rng.below(10)
         name = rng.choice(focus) if rng.chance(85) else rng.choice(BUILTIN_LEVELS)
@@ -566,7 +746,16 @@ def gen_history(seed):
             c["level"] = name
             if rng.chance(8):
                 c["patch"] = ("level", rng.choice([0, 5, 20, 33, 10**6]), gen_text(rng, 3))
+            elif rng.chance(22):
+                kind = rng.choice(["process", "thread", "file"])
+                if kind == "file":
+                    c["patch"] = ("file", gen_text(rng, 4), rng.choice(paths))
+                else:
+                    c["patch"] = (kind, rng.choice(ids), gen_text(rng, 4))
             steps.append(("log", c))
+        elif k == 6 and rng.chance(60):
+            # the REAL thread / process is renamed between two records (same ident, another name)
+            steps.append(("rename", rng.choice(["thread", "process"]), gen_text(rng, 5) or "T"))
         elif k < 8:
             steps.append(("level", name, {"icon": gen_text(rng, 3) if rng.chance(70) else rng.choice(["@", "", " ", "\n"])}))
         elif k == 8:
@@ -586,7 +775,10 @@ def run_history(h, on_record):
     token = "<history %d>" % h["seed"]
     out, twin = [], []
     flt = lambda record: _ACTIVE[0] == token  # noqa: E731
+    import multiprocessing
+    import threading
     saved = {n: logger.level(n) for n in BUILTIN_LEVELS}
+    names = (threading.current_thread().name, multiprocessing.current_process().name)
     ids = [logger.add(twin.append, format=fmt_arg, colorize=False, catch=False, level=0, backtrace=False, diagnose=False,
                       filter=flt),
            logger.add(out.append, format=fmt_arg, serialize=True, catch=False, level=0, backtrace=False, diagnose=False,
@@ -594,6 +786,12 @@ def run_history(h, on_record):
     created = set()
     try:
         for i, st in enumerate(h["steps"]):
+            if st[0] == "rename":
+                if st[1] == "thread":
+                    threading.current_thread().name = st[2]
+                else:
+                    multiprocessing.current_process().name = st[2]
+                continue
             name = st[1]["level"] if st[0] == "log" else st[1]
             if name in h["customs"] and name not in created:
                 try:
@@ -607,6 +805,7 @@ def run_history(h, on_record):
                 on_record(i, st[1], run_impl(st[1], pair=(token, out, twin)))
     finally:
         _ACTIVE[0] = None
+        threading.current_thread().name, multiprocessing.current_process().name = names
         for hid in ids:
             logger.remove(hid)
         for n, lv in saved.items():
@@ -624,6 +823,10 @@ def check_history(ctx, h, lines, pending):
         if len(res["twin"]) != 1:
             raise RuntimeError("harness: twin handler got %d messages for %r" % (len(res["twin"]), rep))
         record = res["twin"][0].record
+        why = outside_reason(record)
+        if why is not None:
+            ctx.stat("outside_quantifier:" + why)
+            return
         text = None
         if explicit:
             try:
@@ -632,8 +835,8 @@ def check_history(ctx, h, lines, pending):
                 text = None
         try:
             line = model_line(res, text) if (not explicit or text is not None) else None
-        except Outside:
-            ctx.stat("outside_quantifier")
+        except Outside as e:
+            ctx.stat("outside_quantifier:" + str(e))
             return
         # a record is non-trivial here when its level was used before in this history (possibly updated since)
         ctx.case((h["seed"], i), nontrivial=(record["level"].name in seen_levels))
@@ -649,18 +852,252 @@ def check_history(ctx, h, lines, pending):
             break
         if line is not None:
             lines.append(line)
+            c["_other_key"] = record_has_other_key(record)
             pending.append((rep, impl_result(res), c))
 
     # count level updates as they pass (for the message only)
     for st in h["steps"]:
         if st[0] == "level":
             ctx.stat("history:level-update:" + "+".join(sorted(st[2])))
+        elif st[0] == "rename":
+            ctx.stat("history:rename:" + st[1])
     orig = on_record
 
     def counting(i, c, res):
         nlev[0] = sum(1 for s2 in h["steps"][:i] if s2[0] == "level")
         orig(i, c, res)
     run_history(h, counting)
+
+
+# ----------------------------------------------------------------------------- the except clause of emit (catch=)
+BAD_VALUES = [lambda: BadStr("V"), lambda: [1, {"k": BadStr("T")}], lambda: ({"a": (BadStr("R"),)},),
+              lambda: {"d": {(1, 2): "x"}}, lambda: [{"e": [{b"k": 1}]}], lambda: {"d": {frozenset([1]): None, "s": 1}},
+              lambda: {1: {KeyObj(): BadStr("K")}}, lambda: {"d": {"ok": 1, (): BadStr("Z")}}]
+
+
+def gen_catch_history(seed):
+    """3–6 logging calls on ONE serialize=True handler created with catch=True or catch=False; about 40 % of the records
+    carry a value that cannot be serialised (str() raises, or – F33 – a nested dictionary key json has no rule for)"""
+    rng = core.Rng(seed)
+    h = {"seed": seed, "catch": rng.chance(60), "format": rng.choice([f for f in FORMATS if f[0] and "extra" not in f[0]]),
+         "steps": []}
+    for _ in range(rng.range(3, 6)):
+        c = gen_case(rng.next())
+        c["format"] = h["format"]
+        if rng.chance(40):
+            c["bind"] = dict(c["bind"])
+            c["bind"][rng.choice(["bad", "k", "zz"])] = rng.choice(BAD_VALUES)()
+        h["steps"].append(c)
+    return h
+
+
+def reported_kind(stderr_text):
+    """the exception class named on the last line of the traceback ErrorInterceptor.print wrote"""
+    body = stderr_text.split("--- End of logging error ---")[0].rstrip("\n").split("\n")
+    name = body[-1].split(":")[0].strip().split(".")[-1] if body else ""
+    return name if name in ("ValueError", "TypeError", "KeyError", "IndexError", "RuntimeError", "OSError", "AttributeError") else "Other"
+
+
+def run_catch_history(h, on_record):
+    logger = the_logger()
+    fmt = h["format"][0]
+    token = "<catch %d>" % h["seed"]
+    out, twin = [], []
+    flt = lambda record: _ACTIVE[0] == token  # noqa: E731
+    ids = [logger.add(twin.append, format=fmt, colorize=False, catch=False, level=0, backtrace=False, diagnose=False, filter=flt),
+           logger.add(out.append, format=fmt, serialize=True, catch=h["catch"], level=0, backtrace=False, diagnose=False,
+                      filter=flt)]
+    keep = sys.stderr
+    try:
+        for i, c in enumerate(h["steps"]):
+            buf = io.StringIO()
+            sys.stderr = buf
+            try:
+                res = run_impl(c, pair=(token, out, twin))
+            finally:
+                sys.stderr = keep
+            res["stderr"] = buf.getvalue()
+            res["handler_id"] = ids[1]
+            on_record(i, c, res)
+    finally:
+        sys.stderr = keep
+        _ACTIVE[0] = None
+        for hid in ids:
+            logger.remove(hid)
+
+
+def catch_oracle(h, c, res):
+    """DIRECT ORACLE for the except clause: a record is never lost SILENTLY.  Returns [(what, key)]."""
+    record = res["twin"][0].record
+    if outside_reason(record) is not None:
+        return []
+    marker = "--- Logging error in Loguru Handler #%d ---" % res["handler_id"]
+    reports = res["stderr"].count(marker)
+    unserialisable = str_fails(record) or record_has_other_key(record)
+    problems = list(oracle(c, res))
+    if not unserialisable:
+        if reports or "Logging error in Loguru" in res["stderr"]:
+            problems.append(("a logging error was reported on stderr for a record every value of which has a str()", None))
+        return problems
+    key = F33 if (record_has_other_key(record) and not str_fails(record)) else None
+    if res["out"]:
+        return problems          # it WAS emitted: the general oracle has judged the line
+    if h["catch"]:
+        if res["err"] is not None:
+            problems.append(("catch=True handler let %r escape into the logging call" % (res["err"],), None))
+        elif reports != 1:
+            problems.append(("record dropped by a catch=True handler with %d error reports on stderr (expected exactly 1): "
+                             "lost silently" % reports, None))
+    else:
+        if res["err"] is None:
+            problems.append(("catch=False handler emitted nothing and raised nothing: record lost silently", None))
+        elif reports:
+            problems.append(("catch=False handler reported on stderr AND raised", None))
+    return problems
+
+
+def check_catch_history(ctx, h, lines, expected):
+    def on_record(i, c, res):
+        rep = {"stream": "catch", "history_seed": h["seed"], "step": i}
+        if len(res["twin"]) != 1:
+            raise RuntimeError("harness: twin handler got %d messages for %r" % (len(res["twin"]), rep))
+        record = res["twin"][0].record
+        if outside_reason(record) is not None:
+            ctx.stat("outside_quantifier:" + outside_reason(record))
+            return
+        bad = str_fails(record) or record_has_other_key(record)
+        ctx.case(("catch", h["seed"], i), nontrivial=bad or i > 0)
+        ctx.stat("stream:catch")
+        ctx.stat("catch:%s:%s" % ("catch" if h["catch"] else "nocatch",
+                                  "wrote" if res["out"] else ("raised" if res["err"] is not None else "reported")))
+        seen = set()
+        for what, k in catch_oracle(h, c, res):
+            if k in seen:
+                continue
+            seen.add(k)
+            ctx.violation(what + "  [catch history seed %d, step %d, catch=%r]" % (h["seed"], i, h["catch"]),
+                          dict(rep, expected="property C14", observed=what), key=k)
+            if k is None:
+                break
+        table, out = wire_record(record)
+        lines.append("hemit %d 1 %s %d %s" % (int(h["catch"]), enc(str(res["twin"][0])), len(table), " ".join(table + out)))
+        if res["out"]:
+            impl = "wrote " + enc(str(res["out"][0]))
+        elif res["err"] is not None:
+            impl = "raised " + canon_err(res["err"])
+        else:
+            impl = "reported " + reported_kind(res["stderr"])
+        expected.append((rep, impl, record_has_other_key(record)))
+    run_catch_history(h, on_record)
+
+
+# ----------------------------------------------------------------------------- file sinks, enqueue=True: the consumer's view
+def gen_sink_case(seed):
+    """6–10 logging calls written by a serialize=True FILE sink (optionally enqueue=True: the Message crosses a queue
+    and is written by the worker thread); the file is then read back the way a log shipper does: line by line"""
+    import pickle
+    rng = core.Rng(seed)
+    h = {"seed": seed, "enqueue": rng.chance(50), "format": rng.choice([f for f in FORMATS if "extra" not in f[0]]), "steps": []}
+    for _ in range(rng.range(6, 10)):
+        c = gen_case(rng.next())
+        c["format"] = h["format"]
+        h["steps"].append(c)
+    if h["enqueue"]:
+        try:
+            pickle.dumps([(c["bind"], c["ctx"], c["kwargs"], c["patch"]) for c in h["steps"]])
+        except Exception:  # noqa  (a value the queue cannot carry: not this property's business)
+            h["enqueue"] = False
+    return h
+
+
+def run_sink_case(h):
+    """returns [(case, res)] with res['out'] = [the line read back from the file] (or [] when none was written)"""
+    import shutil
+    import tempfile
+    logger = the_logger()
+    fmt = h["format"][0]
+    token = "<sink %d>" % h["seed"]
+    twin, dummy = [], []
+    flt = lambda record: _ACTIVE[0] == token  # noqa: E731
+    d = tempfile.mkdtemp(prefix="c14sink")
+    path = os.path.join(d, "out.jsonl")
+    results, problems = [], []
+    try:
+        ids = [logger.add(twin.append, format=fmt, colorize=False, catch=False, level=0, backtrace=False, diagnose=False, filter=flt),
+               logger.add(path, format=fmt, serialize=True, catch=False, level=0, backtrace=False, diagnose=False, filter=flt,
+                          enqueue=h["enqueue"], encoding="utf8")]
+        try:
+            for c in h["steps"]:
+                res = run_impl(c, pair=(token, dummy, twin))
+                results.append((c, res))
+        finally:
+            _ACTIVE[0] = None
+            for hid in ids:
+                logger.remove(hid)
+        with open(path, encoding="utf8", newline="") as f:
+            raw = f.read()
+        with open(path, encoding="utf8") as f:
+            as_consumer = list(f)                      # universal newlines: what `for line in file` yields
+        parts = raw.split("\n")
+        expected = [i for i, (c, res) in enumerate(results) if res["err"] is None]
+        if "\r" in raw:
+            problems.append("the file contains a raw CR")
+        if parts[-1] != "":
+            problems.append("the file does not end with a newline: %r" % raw[-30:])
+        if len(parts) - 1 != len(expected) or len(as_consumer) != len(expected):
+            problems.append("%d logging calls returned normally but the file has %d LF-terminated lines (%d lines for a "
+                            "line-by-line reader)" % (len(expected), len(parts) - 1, len(as_consumer)))
+        else:
+            for i, line in zip(expected, as_consumer):
+                results[i][1]["out"] = [line]
+    finally:
+        shutil.rmtree(d, ignore_errors=True)
+    return results, problems
+
+
+def check_sink_case(ctx, h):
+    results, problems = run_sink_case(h)
+    rep = {"stream": "sink", "sink_seed": h["seed"]}
+    ctx.stat("sink:files:" + ("enqueue" if h["enqueue"] else "direct"))
+    for what in problems[:1]:
+        ctx.violation(what + "  [file sink seed %d, enqueue=%r]" % (h["seed"], h["enqueue"]),
+                      dict(rep, expected="property C14", observed=what))
+    for i, (c, res) in enumerate(results):
+        if len(res["twin"]) != 1:
+            raise RuntimeError("harness: twin handler got %d messages for %r" % (len(res["twin"]), rep))
+        record = res["twin"][0].record
+        if outside_reason(record) is not None:
+            continue
+        ctx.case(("sink", h["seed"], i), nontrivial=True)
+        ctx.stat("stream:sink")
+        if problems:
+            continue
+        seen = set()
+        for what, k in oracle(c, res):
+            if k in seen:
+                continue
+            seen.add(k)
+            ctx.violation(what + "  [file sink seed %d, record %d, enqueue=%r]" % (h["seed"], i, h["enqueue"]),
+                          dict(rep, step=i, expected="property C14", observed=what), key=k)
+            break
+
+
+def replay_sink(r):
+    h = gen_sink_case(r["sink_seed"])
+    print("file sink seed %d: enqueue=%r, format %r, %d records" % (h["seed"], h["enqueue"], h["format"][0], len(h["steps"])))
+    results, problems = run_sink_case(h)
+    found = list(problems)
+    for what in problems:
+        print("  ORACLE: " + what)
+    for i, (c, res) in enumerate(results):
+        probs = [] if problems else oracle(c, res)
+        print("  record %d  log(%r, %r) -> %s" % (i, c["level"], c["message"][:30],
+              repr(res["out"][0])[:200] if res["out"] else "no line, raised %r" % (res["err"],)))
+        for what, _ in probs:
+            print("           ORACLE: " + what)
+            found.append(what)
+    print("REPRODUCED" if found else "not reproduced")
+    return 1 if found else 0
 
 
 def contains_bad(v):
@@ -697,10 +1134,18 @@ def oracle(c, res, explicit_colour=False):
     if len(twin) != 1:
         return [("twin handler received %d messages" % len(twin), None)]
     record = twin[0].record
-    bad = contains_bad(record["extra"])
+    if outside_reason(record) is not None:
+        return []      # outside the property's quantifier (lone surrogate, dictionary key json has no rule for)
+    bad = str_fails(record)
+    other_key = record_has_other_key(record)
     if err is not None or len(out) != 1:
         if bad:
             return []  # str() itself fails: nothing can be rendered (the model must agree: see correspondence)
+        if other_key:
+            # KNOWN FINDING F33 (C14.serialize_total_statement_false / C14.nonscalar_key_loses_record): default=str is
+            # never applied to dictionary KEYS
+            return [("serialize=True handler emitted %d messages, error %r: a nested dictionary key that is not "
+                     "str/int/float/bool/None is not rendered with str() but makes json.dumps fail" % (len(out), err), F33)]
         return [("serialize=True handler emitted %d messages, error %r, although every value has a str()"
                  % (len(out), err), None)]
     if bad:
@@ -737,7 +1182,7 @@ def oracle(c, res, explicit_colour=False):
         "exception": None if exc is None else {
             "type": None if exc.type is None else exc.type.__name__,
             "value": expect_json(exc.value), "traceback": exc.traceback is not None},
-        "extra": expect_json(record["extra"]),
+        "extra": expect_json(record["extra"]) if not other_key else None,
         "file": {"name": expect_json(record["file"].name), "path": expect_json(record["file"].path)},
         "function": expect_json(record["function"]),
         "level": {"icon": record["level"].icon, "name": record["level"].name, "no": record["level"].no},
@@ -754,6 +1199,11 @@ def oracle(c, res, explicit_colour=False):
     for k in want:
         if k not in r:
             problems.append(("record.%s is missing" % k, None))
+        elif k == "extra" and other_key:
+            # how a repaired implementation renders such a key is not prescribed – but no member may be DROPPED
+            lost = dropped_member(r[k], record["extra"])
+            if lost:
+                problems.append(("record.extra: " + lost, None))
         elif not jeq(r[k], want[k]):
             if isinstance(want[k], dict) and isinstance(r[k], dict) and k != "extra":
                 for kk in want[k]:
@@ -793,6 +1243,31 @@ def oracle(c, res, explicit_colour=False):
                 break
         i = body.find("\\u", i + 2)
     return problems
+
+
+def outside_reason(record):
+    """why the record is outside the property's quantifier (None = inside)"""
+    try:
+        _, out = wire_record(record)
+    except Outside as e:
+        return str(e)
+    return None
+
+
+def str_fails(record):
+    """str() raises on some object json has to hand to default= (extra values, exception value, patched fields …)"""
+    table, _ = wire_record(record)
+    return any(t.startswith("!") for t in table)
+
+
+F33 = "F33-json-nonscalar-dict-key"     # known finding: a nested dict key json has no rule for loses the record
+
+
+def record_has_other_key(record):
+    """a dictionary key that is not str/int/float/bool/None somewhere in the values `_serialize_record` hands to json"""
+    exc = record["exception"]
+    return any(has_other_key(v) for v in (record["extra"], record["message"], record["function"], record["line"],
+                                          record["module"], record["name"], None if exc is None else exc.value))
 
 
 def model_line(res, text=None):
@@ -877,6 +1352,19 @@ def case_from_corpus(it):
     return c
 
 
+# model-level witnesses of Props/C14.lean replayed on the implementation (in-quantifier ones are judged like any case)
+WITNESSES = [
+    # C14.dumps_keywords_matter: one int and one str key – total only because sort_keys is off
+    {"message": "mixed keys", "extra": {"d": {1: None, "a": None}}},
+    # C14.exMixed: every coercible key class, colliding texts, nested
+    {"message": "all key classes", "extra": {"d": {1: "a", "1": None, None: True, False: {1.5e-07: 2}, math.nan: [math.inf]}}},
+    {"message": "none and str", "extra": {"d": {None: 1, "null": 2, "b": {True: 0, 2**70: [], -0.0: ()}}}},
+    {"message": "deep", "extra": {"d": [[[[[[[[[[{"k": ({1: [{"x": (Obj("o\n"),)}]},)}]]]]]]]]]]}},
+]
+# C14.serialize_total_statement_false / C14.nonscalar_key_loses_record (known finding F33): a key json has no rule for
+WITNESS_OUTSIDE = {"message": "tuple key", "extra": {"d": {"e": {(1, 2): "x"}}}}
+
+
 class TtyStream:
     """a stream sink that claims to be a terminal"""
 
@@ -901,8 +1389,8 @@ def check_case(ctx, c, replay, lines, pending, tag):
     record = res["twin"][0].record
     try:
         line = model_line(res)
-    except Outside:
-        ctx.stat("outside_quantifier")
+    except Outside as e:
+        ctx.stat("outside_quantifier:" + str(e))
         return
     key = (c["message"], line)
     ctx.case(key, nontrivial=interesting(c, record))
@@ -916,6 +1404,9 @@ def check_case(ctx, c, replay, lines, pending, tag):
         ctx.violation(what + "  [message=%r]" % c["message"][:60], dict(replay, expected="property C14", observed=what), key=k)
         break
     lines.append(line)
+    c["_other_key"] = record_has_other_key(record)
+    if c["_other_key"]:
+        ctx.stat("record:nested-key-without-json-rule")
     pending.append((replay, impl_result(res), c))
     if len(ctx.samples) < 4:
         ctx.sample({"stream": tag, "message": c["message"], "extra": repr(record["extra"])[:200],
@@ -934,13 +1425,17 @@ def run(ctx):
         c = case_from_corpus(it)
         check_case(ctx, c, {"stream": "corpus", "file": it["_file"], "id": it.get("id"), "case": it}, lines, pending, "corpus")
 
+    for wi, w in enumerate(WITNESSES):
+        check_case(ctx, case_from_corpus(w), {"stream": "witness", "index": wi}, lines, pending, "witness")
+    check_case(ctx, case_from_corpus(WITNESS_OUTSIDE), {"stream": "witness", "index": -1}, lines, pending, "witness")
+
     for hp in sorted(glob.glob(os.path.join(core.VERIF, "corpus", PROP, "*.json"))):
         with open(hp, encoding="utf8") as f:
             for hs in json.load(f).get("histories", []):
                 check_history(ctx, gen_history(int(hs["history_seed"])), lines, pending)
 
     # ---- stream 1: logging calls on the real handler: direct oracle + model line
-    n1 = int(ctx.n(4000, 50000) * boost)
+    n1 = int(ctx.n(3200, 50000) * boost)
     for i in range(n1):
         seed = rng.next()
         c = gen_case(seed)
@@ -949,6 +1444,15 @@ def run(ctx):
     # ---- stream 1h: HISTORIES on one long-lived serialize=True handler (level updates between records)
     for i in range(int(ctx.n(130, 1500) * boost)):
         check_history(ctx, gen_history(rng.next()), lines, pending)
+
+    # ---- stream 1c: the except clause of emit: catch=True / catch=False handlers, unserialisable records in between
+    catch_lines, catch_exp = [], []
+    for i in range(int(ctx.n(70, 600) * boost)):
+        check_catch_history(ctx, gen_catch_history(rng.next()), catch_lines, catch_exp)
+
+    # ---- stream 1d: serialize=True FILE sinks (half of them enqueue=True), read back line by line
+    for i in range(ctx.n(12, 300)):
+        check_sink_case(ctx, gen_sink_case(rng.next()))
 
     # ---- stream 1b: every code point of the low planes and the plane boundaries inside a message
     cps = list(range(0, 0x3000)) + [0xd7ff, 0xe000, 0xfffd, 0xfffe, 0xffff, 0x10000, 0x1fffe, 0x1ffff, 0x20000, 0xe0000,
@@ -988,12 +1492,12 @@ def run(ctx):
 
     # ---- stream 3: Python-semantics streams against CPython's json (string level)
     sem_lines, sem_exp = [], []
-    for i in range(ctx.n(3000, 30000)):
+    for i in range(ctx.n(2000, 30000)):
         s = gen_text(rng, 16)
         ea = rng.chance(30)
         sem_lines.append("esc %d %s" % (int(ea), enc(s)))
         sem_exp.append(("json.dumps(%r, ensure_ascii=%r)" % (s, ea), "ok " + enc(json.dumps(s, ensure_ascii=ea))))
-    for i in range(ctx.n(3000, 30000)):
+    for i in range(ctx.n(2000, 30000)):
         tok = gen_json_string_token(rng)
         exp = py_scanstring(tok)
         if exp is None:
@@ -1007,16 +1511,24 @@ def run(ctx):
     for i in range(ctx.n(2500, 30000)):
         v = gen_value(rng, st)
         ea, df = rng.chance(15), not rng.chance(10)
+        so, sk, an = rng.chance(15), rng.chance(10), not rng.chance(10)
+        if so and sort_unmodelled(v):
+            ctx.stat("sem:sort-unmodelled-skipped")
+            so = False
         try:
-            line = value_line(v, ea, df)
+            line = value_line(v, ea, df, so, sk, an)
         except Outside:
             continue
         try:
-            exp = "ok " + enc(json.dumps(v, default=str if df else None, ensure_ascii=ea))
+            exp = "ok " + enc(json.dumps(v, default=str if df else None, ensure_ascii=ea, sort_keys=so, skipkeys=sk,
+                                         allow_nan=an))
         except Exception as e:  # noqa
             exp = "err " + canon_err(e)
+        ctx.stat("sem:dumps:" + ("sort " if so else "") + ("skip " if sk else "") + ("nonan " if not an else "")
+                 + ("other-key " if has_other_key(v) else "") + exp[:3].strip())
         sem_lines.append(line)
-        sem_exp.append(("json.dumps(%r, default=%s, ensure_ascii=%r)" % (v, "str" if df else None, ea), exp))
+        sem_exp.append(("json.dumps(%r, default=%s, ensure_ascii=%r, sort_keys=%r, skipkeys=%r, allow_nan=%r)"
+                        % (v, "str" if df else None, ea, so, sk, an), exp))
         if exp.startswith("ok ") and not ea:
             sem_lines.append("loads " + exp[3:])
             sem_exp.append(("json.loads(json.dumps(%r))" % (v,), exp))
@@ -1035,14 +1547,36 @@ def run(ctx):
             sem_lines.append("loads " + enc(e))
             sem_exp.append(("json.loads(%r)" % e, exp))
 
+    # ---- model `loads` on the real handler outputs: must parse and re-dump to the identical text (same driver run)
+    cand = ["loads " + enc(dec(impl[3:])[:-1]) for (_, impl, _) in pending if impl.startswith("ok ") and dec(impl[3:]).endswith("\n")]
+    sel = cand[::max(1, len(cand) // ctx.n(300, 5000))] if cand else []
+
     # ---- run the model
-    out = drv.run(lines + col_lines + sem_lines)
-    o1, o2, o3 = out[:n_model], out[n_model:n_model + len(col_lines)], out[n_model + len(col_lines):]
+    out = drv.run(lines + col_lines + sem_lines + sel + catch_lines)
+    n3 = n_model + len(col_lines) + len(sem_lines)
+    o1, o2, o3, o4 = out[:n_model], out[n_model:n_model + len(col_lines)], out[n_model + len(col_lines):n3], out[n3:n3 + len(sel)]
+    o5 = out[n3 + len(sel):]
+    for (rep, impl, other_key), m in zip(catch_exp, o5):
+        ctx.traces_validated += 1
+        if m != impl:
+            if other_key:
+                ctx.broke("correspondence Json.handlerEmit on a record with a dictionary key json has no rule for (F33)",
+                          "replay=%r\nimpl =%s\nmodel=%s" % (rep, impl[:300], m[:300]))
+            else:
+                ctx.broke("correspondence Json.handlerEmit (what a catch=True / catch=False handler does with the record)",
+                          "replay=%r\nimpl =%s\nmodel=%s" % (rep, impl[:300], m[:300]))
+                ctx.violation("implementation and model disagree on the outcome of emit: impl %s, model %s"
+                              % (impl[:120], m[:120]), dict(rep, expected=m[:400], observed=impl[:400]), kind="correspondence")
     dis = 0
     loads_lines = []
     for (rep, impl, c), m in zip(pending, o1):
         ctx.traces_validated += 1
-        if m != impl:
+        if m != impl and c.get("_other_key"):
+            # known finding F33: what the code does with such a key is modelled as it IS (TypeError); a disagreement
+            # here means the MODEL of json's key handling is out of date, not that the property is violated
+            ctx.broke("correspondence Json.emit on a record with a dictionary key json has no rule for (F33)",
+                      "replay=%r\nimpl =%s\nmodel=%s" % (rep, show(impl), show(m)))
+        elif m != impl:
             dis += 1
             ctx.stat("disagreements")
             if dis <= 3:
@@ -1063,16 +1597,19 @@ def run(ctx):
     for (what, exp), m in zip(sem_exp, o3):
         ctx.evaluations += 1
         ctx.stat("stream:python-semantics")
+        if m != exp and "sort_keys=True" in what and exp.startswith("err ") and m.startswith("err "):
+            # under sort_keys CPython interleaves sorting a dict with encoding its earlier (sorted) siblings; the model
+            # encodes in insertion order and sorts afterwards: which of two errors comes first may differ (sort_keys is
+            # off in loguru; the branch exists for the refuted alternative)
+            ctx.stat("sem:sort-error-order-tolerated")
+            continue
         if m != exp:
             bad += 1
             if bad <= 3:
                 ctx.broke("correspondence Py.JsonStr / Json.dumps / Json.loads vs CPython json",
                           "%s\nexpected %s\nmodel    %s" % (what, show(exp), show(m)))
     # ---- model `loads` on the real handler outputs: must parse and re-dump to the identical text
-    if loads_lines:
-        step = max(1, len(loads_lines) // ctx.n(1500, 10000))
-        sel = loads_lines[::step]
-        o4 = drv.run(sel)
+    if sel:
         badl = 0
         for l, m in zip(sel, o4):
             ctx.evaluations += 1
@@ -1112,6 +1649,8 @@ def replay_history(r):
             st = h["steps"][j]
             if st[0] == "level":
                 print("  step %2d  logger.level(%r, %s)" % (j, st[1], ", ".join("%s=%r" % kv for kv in sorted(st[2].items()))))
+            elif st[0] == "rename":
+                print("  step %2d  current %s renamed to %r" % (j, st[1], st[2]))
         state["i"] = i + 1
         rec = res["twin"][0].record if res["twin"] else None
         probs = oracle(c, res, explicit_colour=explicit)
@@ -1127,15 +1666,39 @@ def replay_history(r):
     return 1 if found else 0
 
 
+def replay_catch(r):
+    h = gen_catch_history(r["history_seed"])
+    print("catch history seed %d: serialize=True handler with catch=%r, format %r" % (h["seed"], h["catch"], h["format"][0]))
+    found = []
+
+    def on_record(i, c, res):
+        probs = catch_oracle(h, c, res)
+        print("  step %d  log(%r, %r) bind=%r -> sink got %d message(s), raised %r, %d stderr report(s)"
+              % (i, c["level"], c["message"][:30], c["bind"], len(res["out"]), res["err"],
+                 res["stderr"].count("--- Logging error in Loguru Handler")))
+        for what, _ in probs:
+            print("           ORACLE: " + what)
+            found.append((i, what))
+    run_catch_history(h, on_record)
+    print("REPRODUCED" if found else "not reproduced")
+    return 1 if found else 0
+
+
 def replay(ctx, rep):
     r = rep["replay"]
     stream = r.get("stream")
     if stream == "history":
         return replay_history(r)
+    if stream == "catch":
+        return replay_catch(r)
+    if stream == "sink":
+        return replay_sink(r)
     if stream in ("record", "colour"):
         c = gen_case(r["case_seed"])
     elif stream == "corpus":
         c = case_from_corpus(r["case"])
+    elif stream == "witness":
+        c = case_from_corpus(WITNESSES[r["index"]] if r["index"] >= 0 else WITNESS_OUTSIDE)
     elif stream == "codepoint":
         cp = r["cp"]
         c = case_from_corpus({"message": "a" + chr(cp) + "b", "extra": {"k" + chr(cp): [chr(cp)]}})
